@@ -20,12 +20,13 @@ DO = ['merge', 'replace', 'none', 'Merge', ' none', 'delete', '']
 TO = ['test-then-set', 'set', 'test-only', 'TEST-ONLY', 'test_only', 'set ', 'check']
 EO = ['stop-on-error', 'continue-on-error', 'rollback-on-error', 'Rollback-On-Error', 'rollback_on_error', 'abort']
 OPS = ['edit', 'edit', 'edit', 'lock', 'unlock', 'getconfig', 'delete', 'copy', 'validate', 'commit', 'commit', 'cancel', 'discard', 'kill', 'close',
-       'get', 'get', 'getcf', 'getcf', 'disp', 'sub']
+       'get', 'get', 'getcf', 'getcf', 'disp', 'sub', 'schema', 'rpc', 'rpc', 'poweroff', 'reboot', 'validateel', 'copyel']
 WD_CAPS = [CAP + 'with-defaults:1.0?basic-mode=explicit&also-supported=report-all,trim,report-all-tagged', CAP + 'with-defaults:1.0?basic-mode=report-all',
            CAP + 'with-defaults:1.0?also-supported=trim', CAP + 'with-defaults:1.0', CAP + 'with-defaults:1.0?basic-mode=trim&also-supported=',
            'urn:ietf:params:xml:ns:netconf:capability:with-defaults:1.0?basic-mode=explicit&also-supported=trim', None, None]
 WD_MODES = ['explicit', 'trim', 'report-all', 'report-all-tagged', ' Trim ', 'TRIM', 'Report-All\n', 'bogus', 'ex plicit', 'trim,', '\ttrim', 'trim\x0b', '', '  ', '\n']
-RETRIEVE = ('get', 'getcf', 'disp', 'sub')
+RETRIEVE = ('get', 'getcf', 'disp', 'sub', 'schema', 'rpc', 'poweroff', 'reboot', 'validateel', 'copyel')
+POWER_CAPS = ['urn:liberouter:param:netconf:capability:power-control:1.0', 'urn:liberouter:params:netconf:capability:power-control:1.0']
 
 
 def gen_filter(rng, plain_tree):
@@ -96,7 +97,24 @@ def gen(rng, plain_tree):
     elif op == 'sub':
         a = {'filter': gen_filter(rng, plain_tree), 'stream': opt(rng, TEXTS + ['NETCONF'], 0.5), 'start': opt(rng, ['2020-01-01T00:00:00Z'] + TEXTS, 0.5),
              'stop': opt(rng, ['2021-01-01T00:00:00Z'] + TEXTS, 0.4)}
+    elif op == 'schema':
+        a = {'id': text(rng), 'version': opt(rng, TEXTS + ['2020-01-01'], 0.5), 'format': opt(rng, ['yang', 'xsd'] + TEXTS, 0.4)}
+    elif op == 'rpc':
+        cfg = None
+        if rng.random() < 0.5:
+            cfg = plain_tree(rng)
+            cfg[1] = 'config' if rng.random() < 0.8 else rng.choice(['cfg', 'data'])
+        a = {'cmd': rng.choice(NAMES + ['get-system-info', 'request-reboot']), 'target': loc(rng) if rng.random() < 0.4 else None,
+             'source': loc(rng) if rng.random() < 0.4 else None, 'filter': gen_filter(rng, plain_tree), 'cfg': cfg, 'bare_root': rng.random() < 0.3}
+    elif op in ('validateel', 'copyel'):
+        cfg = plain_tree(rng)
+        cfg[1] = ('config' if op == 'validateel' else 'source') if rng.random() < 0.85 else rng.choice(['cfg', 'data'])
+        a = {'cfg': cfg, 'bare_root': rng.random() < 0.3}
+        if op == 'copyel':
+            a['target'] = loc(rng)
     uris = [u for u in GATING_CAPS if rng.random() < 0.7]
+    if op in ('poweroff', 'reboot'):
+        uris += [u for u in POWER_CAPS if rng.random() < 0.5]
     if op in RETRIEVE:
         w = rng.choice(WD_CAPS)
         uris += ([w] if w else []) + ([CAP + 'notification:1.0'] if rng.random() < 0.7 else []) + ([CAP + 'xpath:1.0'] if rng.random() < 0.5 else [])
@@ -123,7 +141,8 @@ def run_impl(case, plain_build, plain_from_etree):
     from lxml import etree
     a, op = case['args'], case['op']
     m, s, dh = make_manager(profile=case.get('profile', 'default'), raise_mode=0, server_caps=list(case['uris']),
-                            responder=lambda req, mid: '<rpc-reply message-id="%s" xmlns="%s"><ok/></rpc-reply>' % (mid, BASE))
+                            responder=lambda req, mid: ('<rpc-reply message-id="%s" xmlns="%s"><data xmlns="urn:ietf:params:xml:ns:yang:ietf-netconf-monitoring">module m {}</data></rpc-reply>'
+                                                        if 'get-schema' in req else '<rpc-reply message-id="%s" xmlns="%s"><ok/></rpc-reply>') % (mid, BASE))
     m.async_mode = bool(case.get('async'))
     caps_before = [(u, sorted(m.server_capabilities[u].parameters.items())) for u in m.server_capabilities]
     try:
@@ -176,7 +195,7 @@ def run_impl(case, plain_build, plain_from_etree):
         elif op == 'close':
             m.close_session()
         elif op in RETRIEVE:
-            f = a['filter']
+            f = a.get('filter')
             if f is None:
                 flt = None
             elif f[0] in ('xpath', 'other'):
@@ -205,7 +224,39 @@ def run_impl(case, plain_build, plain_from_etree):
                         last = plain_build(c)
                         root.append(last)
                 flt = root
-            if op == 'get':
+            def build_el(t, bare):
+                # root in the base namespace (new_ele) or un-qualified; children without a namespace (the shape the model serialises)
+                from ncclient.xml_ import new_ele
+                if bare:
+                    root = etree.Element(t[1])
+                    for k, v in t[2]:
+                        root.set(k, v)
+                else:
+                    root = new_ele(t[1], dict(t[2]))
+                last = None
+                for c in t[3]:
+                    if c[0] == 'T':
+                        if last is None:
+                            root.text = c[1]
+                        else:
+                            last.tail = c[1]
+                    else:
+                        last = plain_build(c)
+                        root.append(last)
+                return root
+            if op == 'schema':
+                m.get_schema(a['id'], version=a['version'], format=a['format'])
+            elif op == 'rpc':
+                m.rpc(a['cmd'], target=a['target'], source=a['source'], filter=flt, config=None if a['cfg'] is None else build_el(a['cfg'], a['bare_root']))
+            elif op == 'poweroff':
+                m.poweroff_machine()
+            elif op == 'reboot':
+                m.reboot_machine()
+            elif op == 'validateel':
+                m.validate(build_el(a['cfg'], a['bare_root']))
+            elif op == 'copyel':
+                m.copy_config(source=build_el(a['cfg'], a['bare_root']), target=a['target'])
+            elif op == 'get':
                 m.get(filter=flt, with_defaults=a['wd'])
             elif op == 'getcf':
                 m.get_config(source=a['source'], filter=flt, with_defaults=a['wd'])
@@ -286,6 +337,14 @@ def model_line(case):
         return '%s %s' % (head, o(a['pid']))
     if op == 'kill':
         return '%s %s' % (head, hexs(a['sid']))
+    if op == 'schema':
+        return '%s %s %s %s' % (head, hexs(a['id']), o(a['version']), o(a['format']))
+    if op in ('poweroff', 'reboot'):
+        return head
+    if op == 'validateel':
+        return '%s %s' % (head, ' '.join(tree_toks(a['cfg'], nc_root=not a['bare_root'])))
+    if op == 'copyel':
+        return '%s %s %s' % (head, hexs(a['target']), ' '.join(tree_toks(a['cfg'], nc_root=not a['bare_root'])))
     if op in RETRIEVE:
         f = a['filter']
         if f is None:
@@ -298,6 +357,9 @@ def model_line(case):
             ft = ' '.join(['subtrees', str(len(f[1]))] + [x for t in f[1] for x in tree_toks(t, nc_root=False)])
         else:
             ft = 'element ' + ' '.join(tree_toks(f[1], nc_root=f[2]))
+        if op == 'rpc':
+            cfgt = 'nocfg' if a['cfg'] is None else 'cfg ' + ' '.join(tree_toks(a['cfg'], nc_root=not a['bare_root']))
+            return '%s %s %s %s %s flt %s' % (head, hexs(a['cmd']), o(a['target']), o(a['source']), cfgt, ft)
         if op == 'get':
             return '%s %s %s' % (head, o(a['wd']), ft)
         if op == 'getcf':
@@ -321,7 +383,7 @@ def model_obs(out):
 
 def has_empty_text(case):
     a = case['args']
-    return any(a.get(k) == '' for k in ('timeout', 'persist', 'pid', 'sid', 'cfg', 'stream', 'start', 'stop', 'wd') if isinstance(a.get(k), str))
+    return any(a.get(k) == '' for k in ('timeout', 'persist', 'pid', 'sid', 'cfg', 'stream', 'start', 'stop', 'wd', 'id', 'version', 'format') if isinstance(a.get(k), str))
 
 
 def compare(case, io, mo):
@@ -343,7 +405,8 @@ RFC_ORDER = {'edit': ['target', 'default-operation', 'test-option', 'error-optio
              'commit': ['confirmed', 'confirm-timeout', 'persist', 'persist-id'], 'getconfig': ['source'], 'delete': ['target'], 'validate': ['source'],
              'lock': ['target'], 'unlock': ['target'], 'cancel': ['persist-id'], 'kill': ['session-id'], 'discard': [], 'close': [],
              'get': ['filter', 'with-defaults'], 'getcf': ['source', 'filter', 'with-defaults'], 'disp': ['source', 'filter'],
-             'sub': ['filter', 'stream', 'startTime', 'stopTime']}
+             'sub': ['filter', 'stream', 'startTime', 'stopTime'], 'schema': ['identifier', 'version', 'format'], 'rpc': ['target', 'source', 'filter', 'config'],
+             'poweroff': [], 'reboot': [], 'validateel': ['source'], 'copyel': ['target', 'source']}
 ENUMS = {'default-operation': ['merge', 'replace', 'none'], 'test-option': ['test-then-set', 'set', 'test-only'],
          'error-option': ['stop-on-error', 'continue-on-error', 'rollback-on-error']}
 
@@ -383,6 +446,16 @@ def required(case):
         return url(a['source'])
     if op == 'sub':
         return [':notification']
+    if op == 'rpc':
+        return url(a['target']) + url(a['source'])
+    if op == 'validateel':
+        return [':validate']
+    if op == 'copyel':
+        return url(a['target'])
+    if op == 'poweroff':
+        return [POWER_CAPS[0]]
+    if op == 'reboot':
+        return [POWER_CAPS[1]]
     return []
 
 
@@ -400,6 +473,8 @@ def advertised_modes(uris):
 
 def server_has(uris, short):
     """Independent reading of RFC 6241 capability URNs: does the list contain the capability `:name[:version]`?"""
+    if not short.startswith(':'):
+        return short in uris            # a dependency named by its full URI
     for u in uris:
         m = re.match(r'^urn:ietf:params:(?:xml:ns:)?netconf:capability:([^:?]*):([^:?]*)', u)
         if m and short in (':' + m.group(1), ':%s:%s' % (m.group(1), m.group(2))):
